@@ -90,7 +90,7 @@ theorem dispComposite_eq (T : Vec d K → Vec d K) {tg g : Grid d K} {n : Fin d 
     (hn : g.HasSize n) (h2 : ∀ i, 2 ≤ n i) (htc : tg.CornersOK (transformAxes tg)) (sameDomain : Bool)
     (hdom : sameDomain = true → ∀ p, fromGrid tg .world (toGrid tg (transformAxes tg) p)
         = fromGrid g .world (toGrid g (Axes.fromAlignCorners g.alignCorners) p)) (j : Vec d K) :
-    dispComposite T tg g n sameDomain id j
+    dispComposite T tg g n sameDomain j
       = (fromGrid g (Axes.fromAlignCorners g.alignCorners) (toGrid g .world (worldMap tg T (fromGrid g .world j)))).sub
           (fromGrid g (Axes.fromAlignCorners g.alignCorners) j) := by
   have hgc : g.CornersOK (Axes.fromAlignCorners g.alignCorners) := hn.cornersOK h2 _
@@ -109,7 +109,7 @@ theorem dispComposite_eq (T : Vec d K → Vec d K) {tg g : Grid d K} {n : Fin d 
         rw [← this, toGrid_fromGrid ht .world hwt, fromGrid_toGrid ht _ htc]
       rw [e1, hd, toGrid_fromGrid hg .world hw, fromGrid_toGrid hg _ hgc]
   | false =>
-      simp only [Bool.false_eq_true, if_false, id]
+      simp only [Bool.false_eq_true, if_false]
       congr 1
       have e1 := applyTransformTo_eq hg ht (Axes.fromAlignCorners g.alignCorners) (transformAxes tg) hgc htc
         (fromGrid g (Axes.fromAlignCorners g.alignCorners) j)
